@@ -1456,8 +1456,29 @@ def upsert_detector(ctx, prefix=None):
     cond_parts = []
     for t, pol in guards:
         cond_parts.append(t if pol else ast.UnaryOp(op=ast.Not(), operand=t))
-    cond = cond_parts[0] if len(cond_parts) == 1 else ast.BoolOp(op=ast.And(), values=cond_parts)
     ctx.require(cond_parts, f"{FLAG_FIELD} is set unconditionally")
+    cond = cond_parts[0] if len(cond_parts) == 1 else ast.BoolOp(op=ast.And(), values=cond_parts)
+    # a local that is bound once stands for its defining expression (`valueless = bp.value is None and ...`)
+    import copy
+    single = {}
+    for fn_ in {vb.node, df.node}:
+        for n_ in walk_local(fn_):
+            if isinstance(n_, ast.Assign) and len(n_.targets) == 1 and isinstance(n_.targets[0], ast.Name):
+                single.setdefault(n_.targets[0].id, []).append(n_.value)
+    single = {k: v[0] for k, v in single.items() if len(v) == 1 and k not in vb.params and k not in df.params}
+
+    class _Expand(ast.NodeTransformer):
+        depth = 0
+
+        def visit_Name(self, node):
+            if node.id in single and self.depth < 5:
+                self.depth += 1
+                out = self.visit(copy.deepcopy(single[node.id]))
+                self.depth -= 1
+                return out
+            return node
+
+    cond = ast.fix_missing_locations(_Expand().visit(copy.deepcopy(cond)))
     sat = split_test(cond, True)
     atoms = sorted({a for part in sat for a, _ in part} | {a for part in split_test(cond, False) for a, _ in part})
     fixed = {}
@@ -1584,7 +1605,8 @@ def upsert_consumer(ctx):
     else:
         why = ""
         if witness:
-            rel = {a: v for a, v in witness[0].items() if a != mode and ("imv." in a or "self." in a or a.startswith("sort_by"))}
+            rel = {a: v for a, v in witness[0].items() if a != mode and ("imv." in a or "self." in a or a.startswith("sort_by"))
+                   and not (a.endswith(" is None") and a[: -len(" is None")] in witness[0])}
             why = ", ".join(f"{a}={v}" for a, v in sorted(rel.items()))
         ctx.check(witness is None, f"{cb.key}:upsert-bound-parameters-force-row-at-a-time",
                   f"batch mode (`{mode}` not True) is chosen although the statement may have a per-row bound parameter in its upsert "
